@@ -87,7 +87,7 @@ type parsed struct {
 	dirs  []any
 	gaps  []any
 	lines []any
-	file directives.File
+	file  directives.File
 }
 
 func parseForFormat(text string) (p parsed) {
